@@ -273,14 +273,13 @@ def mutate_case(rng, case):
 
 
 CLAIMED = True
-LEVEL_TEXT = ("Proved in Coq for every AST of the documented subset without blackbox instances (8 primitives at any arity, constants, "
-              "assigns, any statement order, loops): both reader models succeed and return circuits identical apart from the constant "
-              "nodes' names, with the same name/registry/inputs/outputs and matching consistent valuations on every net "
-              "(C14_fast_full_agree_prims/_assigns, C14_property_prims_assigns, C14_io_prims_assigns); for all ASTs: the fast reader "
-              "never raises inside the subset, same name and registry whenever both succeed; character level: split/strip/constant "
-              "replacement recover the operand list from any blank layout. ASTs with blackbox instances: see docs/C14.md for the "
-              "stage reached; what is not proved there is decided per rendered text by the Coq oracle on what the two real readers "
-              "returned. Models (AST level, literal tables regenerated from the source) are tied to the real readers by correspondence.")
+LEVEL_TEXT = ("Proved in Coq for EVERY AST of the documented subset (8 primitives at any arity, constants, assigns, named-port blackbox "
+              "instances with connected / unconnected / omitted pins, any statement order, loops): both reader models succeed and return "
+              "circuits identical apart from the constant nodes' names, with the same name, registry, inputs and outputs and matching "
+              "consistent valuations on every net and pin (C14_fast_full_agree_ast, C14_property, C14_io); character level: "
+              "split/strip/constant replacement recover the operand list from any blank layout. The models (AST level, literal tables "
+              "regenerated from the source) are tied to the two real readers by correspondence on rendered texts; the property is also "
+              "judged per case by the Coq oracle on what the real readers returned.")
 LEVEL_NOTE = ("Trusted: Coq kernel + vm_compute, std++, the harness renderer/subset reader (text <-> AST), translator plug-in fastv.py "
               "(patterns captured from a live call, literal lists by AST shape, fail closed). The regex scans (instance, pin, assign, "
               "keyword patterns) and Lark's LALR parser are tied by correspondence on the rendered texts, not proved; split(',')/strip() "
